@@ -31,7 +31,7 @@ PROPS = {
                 level="exploration", batch=4, timeout=600, continue_after_violation=True),
     "C13": dict(engine="store", special="c13", nops=(1, 1), runs={"quick": 64, "thorough": 1600},
                 level="fault_enumeration", batch=2, timeout=900),
-    "C02": dict(engine="store", gen="gen_c02", nops=(3, 9), runs={"quick": 560, "thorough": 10000},
+    "C02": dict(engine="store", gen="gen_c02", nops=(3, 9), runs={"quick": 400, "thorough": 8000},
                 level="exploration", faults=True, batch=8),
     "C06": dict(engine="store", gen="gen_c06", nops=(2, 6), runs={"quick": 480, "thorough": 9000},
                 level="exploration", batch=8),
